@@ -172,6 +172,16 @@ def release_called(ctx: Ctx):
             yield ctx.ob('C17.RELEASE-CALLED', not bad, cl.fn, rel, f'`{arg.id}` derives from {st.complete_method.name}({cl.task_var}, ...) of this iteration',
                          '' if not bad else f'`{arg.id}` may hold something other than the completion method\'s return value for this task '
                          f'(definitions at lines {[g.node(d).lineno for d in bad]})')
+            # ... and is handed over as returned: nothing is added to (or taken from) the batch in between
+            muts = [c for c in calls_in(cl.loop) if isinstance(c.func, ast.Attribute) and isinstance(c.func.value, ast.Name) and c.func.value.id == arg.id
+                    and c.func.attr in ('add', 'update', 'append', 'extend', 'insert', 'remove', 'discard', 'pop', 'clear', 'difference_update',
+                                        'intersection_update', 'symmetric_difference_update')]
+            augs = [n for n in walk_local(cl.loop) if isinstance(n, ast.AugAssign) and isinstance(n.target, ast.Name) and n.target.id == arg.id]
+            okm = not muts and not augs
+            first = (muts + augs)[0] if not okm else rel
+            yield ctx.ob('C17.RELEASE-CALLED', okm, cl.fn, first, f'`{arg.id}` released exactly as the completion method returned it',
+                         '' if okm else f'`{src(first)[:60]}` changes the batch between {st.complete_method.name}() and remove_results(): a result is released '
+                         'although a dependent still needs it (or kept although nobody does)')
 
 
 def _completion_parts(ctx: Ctx):
